@@ -185,6 +185,33 @@ func WorkerState(handler uintptr) string {
 	return "absent"
 }
 
+// HandlerState describes where a wallet's chain-follower goroutine (handle) is: "absent", "idle"
+// (in its select), "resume-wait" (took a suspend request and waits for the resume), "busy".
+func HandlerState(handler uintptr) string {
+	tag := ""
+	if handler != 0 {
+		tag = fmt.Sprintf("masswallet.handle(0x%x", handler)
+	}
+	for _, g := range Parse(AllStacks()) {
+		if !g.Has("masswallet.handle") {
+			continue
+		}
+		if tag != "" && !strings.Contains(g.Raw, tag) {
+			continue
+		}
+		top := g.FirstRepoFrame()
+		switch {
+		case g.State == "select" && strings.HasSuffix(top, "masswallet.handle"):
+			return "idle"
+		case g.State == "chan receive" && strings.HasSuffix(top, "masswallet.handle"):
+			return "resume-wait"
+		default:
+			return "busy"
+		}
+	}
+	return "absent"
+}
+
 // WaitWorker waits until the worker goroutine is parked (idle / suspend / resume) or absent.
 func WaitWorker(handler uintptr, limit time.Duration) (string, error) {
 	deadline := time.Now().Add(limit)
